@@ -158,6 +158,7 @@ func VC_C09_standin() {
 
 type vP1 struct{ p *vS1 }         // one pointer-shaped word: stored directly in interfaces
 type vP2 struct{ q *vS1 }         // identical layout
+type vP4 struct{ u uintptr }      // same size, not pointer-shaped: stored indirectly
 type vP3 struct{ w [1]*vS1 }      // same again, through a one-element array
 
 // VC_C09_standin_pointer_word: stand-in structs whose whole layout is one pointer word
@@ -167,7 +168,11 @@ func VC_C09_standin_pointer_word() {
 	tgt := &vS1{A: a, B: b}
 	var v reflect.Value
 	var rej bool
-	switch verifChoice("case", 3) {
+	switch verifChoice("case", 4) {
+	case 3:
+		// a same-size stand-in that reflect stores differently (a word that is not a
+		// pointer type: kept behind the data word) for a pointer-shaped target
+		v, rej, _ = vOne(vP4{u: uintptr(unsafe.Pointer(tgt))}, vTypeOf(vP1{}))
 	case 0:
 		v, rej, _ = vOne(vP2{q: tgt}, vTypeOf(vP1{}))
 	case 1:
